@@ -4,6 +4,7 @@
 -/
 import Krp.Lemmas.Cw20
 import Krp.Init
+import Krp.Lemmas.Reach
 namespace Krp
 open Token
 
@@ -143,5 +144,42 @@ theorem C18_burn_refreshes_rates (t t' : Token) (b : Block) (self : Addr) (rw : 
 /-! Non-vacuity -/
 example : ∃ t, tokInit true 100 [(5, 10), (6, 7), (5, 20)] = .ok t ∧ t.supply = 37 ∧ t.bal 5 = 30 := by
   refine ⟨_, rfl, ?_, ?_⟩ <;> simp [Token.setBal, emptyToken, upd]
+
+/-- **Every reachable state.** From any state in which both ledgers are consistent (in particular
+    the instantiated one, `C18_init_wf`), after any history of any length — top-level messages of
+    any sender to any contract with everything they trigger, failed transactions, slashing, time,
+    reward accrual, donations — both tokens still satisfy Σ balances = total supply, no account
+    outside the holder list has a balance, and both still name the same hub. -/
+theorem C18_reachable (s : Sys) (l : List Step) (hb : s.bsei.WF) (hs : s.stsei.WF) :
+    (s.steps l).bsei.WF ∧ (s.steps l).stsei.WF ∧
+    (s.steps l).bsei.hub = s.bsei.hub ∧ (s.steps l).stsei.hub = s.stsei.hub ∧
+    (s.steps l).bsei.minter = s.bsei.minter := by
+  have key := steps_inv
+    (fun x => x.bsei.WF ∧ x.stsei.WF ∧ x.bsei.hub = s.bsei.hub ∧ x.stsei.hub = s.stsei.hub ∧
+      x.bsei.minter = s.bsei.minter)
+    (by
+      intro x m x' ms hp hx
+      obtain ⟨p1, p2, p3, p4, p5⟩ := hp
+      cases handle_touch x x' m ms hx with
+      | none h => rw [h.bsei, h.stsei]; exact ⟨p1, p2, p3, p4, p5⟩
+      | hub e sender funds hm hx' b t r d g => rw [b, t]; exact ⟨p1, p2, p3, p4, p5⟩
+      | bsei blk rw sender tm hx' h t r d g =>
+        have st := C18_bsei_step _ _ _ _ _ _ _ _ _ p1 hx'
+        rw [t]; exact ⟨st.2.1, p2, by rw [st.2.2.2]; exact p3, p4, by rw [st.2.2.1]; exact p5⟩
+      | stsei blk sender tm hx' h b r d g =>
+        have st := C18_stsei_step _ _ _ _ _ _ _ _ p2 hx'
+        rw [b]; exact ⟨p1, st.2.1, p3, by rw [st.2.2.1]; exact p4, p5⟩
+      | reward tok dsp bal sender rm hx' h b t d g => rw [b, t]; exact ⟨p1, p2, p3, p4, p5⟩
+      | disp env sender dm hx' h b t r g => rw [b, t]; exact ⟨p1, p2, p3, p4, p5⟩
+      | reg s1 sender rm h1 hx' h b t r d => rw [b, t]; exact ⟨p1, p2, p3, p4, p5⟩)
+    (by
+      intro x e hp
+      cases e with
+      | seedLegacy u b a => exact hp
+      | slash v n d => simp only [Sys.env]; split <;> exact hp
+      | slashUnbonding v n d => simp only [Sys.env]; split <;> exact hp
+      | _ => exact hp)
+    l s ⟨hb, hs, rfl, rfl, rfl⟩
+  exact key
 
 end Krp
